@@ -628,7 +628,11 @@ class IteratorQueue(IterableQueue[_ValueT]):
       self._states_lock.release()
 
   def get_batch(
-      self, max_batch_size: int = 0, *, block: bool = False
+      self,
+      max_batch_size: int = 0,
+      *,
+      block: bool = False,
+      keep_partial: bool = False,
   ) -> list[_ValueT]:
     """Gets elements from the queue, waits for timeout if empty.
 
@@ -638,6 +642,9 @@ class IteratorQueue(IterableQueue[_ValueT]):
         elements.
       block: Whether to block until there are `max_batch_size` elements before
         returning, only applicable when `max_batch_size` is positive.
+      keep_partial: Whether to return the elements already dequeued by this call
+        when the enqueuer's exception is met, instead of raising and dropping
+        them. The queue stays exhausted, so the next call raises the exception.
 
     Returns:
       A list of dequeued elements.
@@ -671,6 +678,8 @@ class IteratorQueue(IterableQueue[_ValueT]):
         except Exception as e:  # pylint: disable=broad-exception-caught
           exhausted = is_stop_iteration(e)
           if (exhausted and result) or (not exhausted and self.ignore_error):
+            break
+          if keep_partial and result and self._exhausted:
             break
           raise e
     with self._enqueue_lock:
